@@ -14,7 +14,7 @@ func init() {
 			ma := newMergeAnalysis(c)
 			ma.collectPairs()
 			ma.ruleR10(c)
-			ma.ruleR11(c, "b")
+			ma.ruleR11(c, "bc")
 			ma.ruleR12(c)
 			ruleR14(c)
 			ma.ruleR15(c)
